@@ -22,8 +22,8 @@ from . import c11, c12
 
 ID = "C14"
 TIERS = {
-    "quick": {"runs": 7000, "selftest": 16, "budget_s": 240, "chunk": 100},
-    "thorough": {"runs": 110000, "selftest": 64, "budget_s": 1500, "chunk": 250},
+    "quick": {"runs": 7000, "selftest": 200, "budget_s": 240, "chunk": 100},
+    "thorough": {"runs": 110000, "selftest": 1000, "budget_s": 1500, "chunk": 250},
 }
 RULE = (
     "run i is generated from SHA-256(VERIF_SEED:C14:i): one Scores or GroupScores source and 1-5 operations "
